@@ -25,6 +25,24 @@ impl Error for SimBusError {}
 
 pub type BusResult<'a> = Result<Option<Message<'a>>, Box<dyn Error + Send + Sync>>;
 
+/// A bus failure as a transport could report it: the simulator's own error type, a bare
+/// `io::Error` of several kinds, or what `SerialSignBus` produces (a `FrameError` wrapping an
+/// `io::Error` -- e.g. a read timeout -- or a decode error). The tape picks; 0 = the plain one.
+pub fn bus_error(cx: &Cx, what: &'static str) -> Box<dyn Error + Send + Sync> {
+    use std::io;
+    let kinds = [io::ErrorKind::TimedOut, io::ErrorKind::BrokenPipe, io::ErrorKind::Other, io::ErrorKind::UnexpectedEof, io::ErrorKind::WouldBlock];
+    match cx.draw(6) {
+        0 => Box::new(SimBusError(what)),
+        1 => Box::new(io::Error::new(*cx.pick(&kinds), what)),
+        2 | 3 => Box::new(flipdot_core::FrameError::from(io::Error::new(io::ErrorKind::TimedOut, what))),
+        4 => Box::new(flipdot_core::FrameError::from(io::Error::new(*cx.pick(&kinds), what))),
+        _ => match flipdot_core::Frame::from_bytes(b":00000000FF\r\n") {
+            Err(e) => Box::new(e),
+            Ok(_) => Box::new(SimBusError(what)),
+        },
+    }
+}
+
 #[derive(Clone, Copy, Debug, PartialEq, Eq)]
 pub enum OnPanic {
     /// The panic is a violation of the scenario's property (class `<prop>/panic@site`).
@@ -445,7 +463,7 @@ impl SignBus for FaultyBus {
                 Message::RequestOperation(_, Operation::FinishReset) | Message::Hello(_) if idx > 0 => self.cx.probe("crash_mid_reset"),
                 _ => {}
             }
-            return Err(Box::new(SimBusError("controller crashed")));
+            return Err(bus_error(&self.cx, "controller crashed"));
         }
         if !self.cfg.any() {
             return Ok(self.world.lock().deliver(&message));
@@ -461,7 +479,7 @@ impl SignBus for FaultyBus {
         }
         let message = self.mutate(message);
         if self.cfg.fire(&self.cx, "bus_error") {
-            return Err(Box::new(SimBusError("transport failure")));
+            return Err(bus_error(&self.cx, "transport failure"));
         }
         if self.cfg.fire(&self.cx, "lose_request") {
             if matches!(message, Message::SendData(..)) {
